@@ -280,8 +280,20 @@ def loopStartStep (p : Prog) (cont : Bool) (names : List Str) (s : St) : Int × 
     if h = CONTINUE then (h, s, cont, true)
     else if h = SKIP_CURRENT then (h, { s with skip := 1 }, false, true)
     else if h = SKIP_SIBLINGS then (h, { s with skip := 2 }, false, true)
-    else if h = END then (h, s, false, false)           -- goto loop_body_end
-    else (h, s, false, true)                            -- default: do nothing — the packets are parsed all the same
+    else (h, s, false, false)                           -- CIF_TRAVERSE_END or an error code: goto loop_body_end
+  else (OK, s, false, true)
+
+/-- the loop_start step before fix 43d0bb7: only END left the switch through `goto loop_body_end`; any other answer
+    (a positive code) fell out of the switch and the packets were parsed all the same, their result replacing the
+    handler's (finding F33, fixed) -/
+def loopStartStepPinned (p : Prog) (cont : Bool) (names : List Str) (s : St) : Int × St × Bool × Bool :=
+  if s.skip ≤ 0 then
+    let (h, s) := call p s (.loopStart names)
+    if h = CONTINUE then (h, s, cont, true)
+    else if h = SKIP_CURRENT then (h, { s with skip := 1 }, false, true)
+    else if h = SKIP_SIBLINGS then (h, { s with skip := 2 }, false, true)
+    else if h = END then (h, s, false, false)
+    else (h, s, false, true)
   else (OK, s, false, true)
 
 /-- the code after label `loop_end` of parse_loop -/
